@@ -49,12 +49,20 @@ fn classify(path: &str, expect: &[u8], regular: bool) -> (&'static str, i64) {
     }
 }
 
-pub fn file_event(id: u64, tag: &str, dir: &Path, qr: &QRCode, prog: &[Call], renderer: &str, fault: &str, limit: Option<u64>) -> Option<Value> {
+pub fn file_event(id: u64, tag: &str, dir: &Path, qr: &QRCode, prog: &[Call], renderer: &str, fault: &str, limit: Option<u64>, pre: &str) -> Option<Value> {
     let ext = if renderer == "svg" { "svg" } else { "png" };
     let path = fault_path(dir, fault, ext)?;
     let expect: Vec<u8> = if renderer == "svg" { svg_builder(prog).to_str(qr).into_bytes() } else { image_builder(prog).to_bytes(qr).ok()? };
     let regular = matches!(fault, "none" | "EFBIG");
-    if regular { let _ = std::fs::remove_file(&path); }
+    if regular {
+        let _ = std::fs::remove_file(&path);
+        // what is at the path before the call: nothing, a shorter file, or a longer one (of other bytes)
+        match pre {
+            "shorter" => { let _ = std::fs::write(&path, vec![b'#'; (expect.len() / 3).max(1)]); }
+            "longer" => { let _ = std::fs::write(&path, vec![b'#'; expect.len() * 2 + 100]); }
+            _ => {}
+        }
+    }
     let (q, p, pa, rd) = (qr.clone(), prog.to_vec(), path.clone(), renderer.to_string());
     if fault == "EFBIG" { set_fsize_limit(limit); }
     let res = guarded(120, move || {
@@ -64,7 +72,7 @@ pub fn file_event(id: u64, tag: &str, dir: &Path, qr: &QRCode, prog: &[Call], re
     let (ret, msg) = match res { Ok(Ok(())) => ("Ok", String::new()), Ok(Err(m)) => ("Err", m), Err(k) => (if k == "Timeout" { "Timeout" } else { "Panic" }, k) };
     let (class, k) = classify(&path, &expect, regular);
     let msg: String = msg.chars().filter(|c| c.is_ascii() && *c != '"' && *c != '\\').take(100).collect();
-    Some(json!({"ev": "FileOp", "id": id, "tag": tag, "renderer": renderer, "fault": fault, "len": expect.len(), "limit": limit.map(|x| x as i64).unwrap_or(-1),
+    Some(json!({"ev": "FileOp", "id": id, "tag": tag, "renderer": renderer, "fault": fault, "len": expect.len(), "limit": limit.map(|x| x as i64).unwrap_or(-1), "pre": pre,
                 "ret": ret, "msg": msg, "file": class, "k": k}))
 }
 
@@ -87,12 +95,13 @@ pub fn fileio(sink: &mut Sink, seed: u64, thorough: bool, behaviours: &str) {
             for b in &beh {
                 let fault = b["fault"].as_str().unwrap_or("none");
                 let off = b["off"].as_u64().unwrap_or(0);
+                let pre = b["pre"].as_str().unwrap_or("absent");
                 // concretisation of the chunk offset (inverse of AbsOff)
                 let limit = match off { 0 => 0, 1 => 1, 2 => len / 2, 3 => len - 1, _ => len };
                 let id = sink.id();
-                match file_event(id, &format!("file:{renderer}:{fault}:{off}"), &dir, &qr, &prog, renderer, fault, if fault == "EFBIG" { Some(limit) } else { None }) {
+                match file_event(id, &format!("file:{renderer}:{fault}:{off}:{pre}"), &dir, &qr, &prog, renderer, fault, if fault == "EFBIG" { Some(limit) } else { None }, pre) {
                     Some(ev) => sink.emit(&ev),
-                    None => sink.emit(&json!({"ev": "FileSkip", "id": id, "tag": format!("file:{renderer}:{fault}:{off}"), "fault": fault})),
+                    None => sink.emit(&json!({"ev": "FileSkip", "id": id, "tag": format!("file:{renderer}:{fault}:{off}:{pre}"), "fault": fault})),
                 }
             }
             if thorough {
@@ -100,7 +109,7 @@ pub fn fileio(sink: &mut Sink, seed: u64, thorough: bool, behaviours: &str) {
                 for j in 0..64u64 {
                     let limit = match j { 0 => 0, 1 => 1, 2 => 2, 61 => len - 2, 62 => len - 1, 63 => len + 1, _ => len * j / 64 };
                     let id = sink.id();
-                    if let Some(ev) = file_event(id, &format!("filesweep:{renderer}"), &dir, &qr, &prog, renderer, "EFBIG", Some(limit)) { sink.emit(&ev); }
+                    if let Some(ev) = file_event(id, &format!("filesweep:{renderer}"), &dir, &qr, &prog, renderer, "EFBIG", Some(limit), ["absent", "shorter", "longer"][j as usize % 3]) { sink.emit(&ev); }
                 }
             }
         }
